@@ -126,7 +126,7 @@ TxShapes == {t \in (0..MaxPg) \X Pages \X (SUBSET Pages) :
 Scenarios ==
   (IF "inc" \in Ops THEN {S("inc", t[1], t[2], t[3], "-", <<>>, "stream", FALSE) : t \in {x \in TxShapes : x[1] >= 1}} ELSE {})
   \cup (IF "snap" \in Ops THEN {S("snap", 0, na, {}, "fresh", <<>>, "create", FALSE) : na \in Pages}
-                               \cup {S("snap", nb, na, {}, rk, <<>>, "stream", FALSE) : nb \in Pages, na \in Pages, rk \in {"behind", "equal", "ahead"}} ELSE {})
+                               \cup {S("snap", nb, na, {}, rk, <<>>, "stream", FALSE) : nb \in Pages, na \in Pages, rk \in {"behind", "behind2", "equal", "ahead"}} ELSE {})
   \cup (IF "restore" \in Ops THEN {S("restore", nb, na, {}, rk, <<>>, "restore", FALSE) : nb \in Pages, na \in Pages, rk \in {"behind", "ahead"}} ELSE {})
   \cup (IF "rdrop" \in Ops THEN {S("rdrop", nb, 0, {}, "-", <<>>, "stream", FALSE) : nb \in Pages} ELSE {})
   \cup (IF "ckpt" \in Ops THEN {S("ckpt", 0, 0, {}, "-", ns, cx, FALSE) : ns \in [1..(WalTxs + 1) -> Pages], cx \in {"recover", "ckpt"}} ELSE {})
@@ -151,8 +151,11 @@ WImg(ns, i) == IF i = 0 THEN Img(ns[1], 1) ELSE After(WImg(ns, i - 1), ns[i + 1]
 WTx(ns, i) == [pages |-> TxPages(ns[i + 1], WM(ns, i), 1 + i), commit |-> ns[i + 1]]
 WLtx(ns, i) == [min |-> 1 + i, max |-> 1 + i, commit |-> ns[i + 1], pages |-> TxPages(ns[i + 1], WM(ns, i), 1 + i),
                 post |-> WImg(ns, i), wsalt |-> 1, wend |-> i]
-ForkLen(rk) == CASE rk = "fresh" -> 0 [] rk = "behind" -> 1 [] rk = "equal" -> 2 [] rk = "ahead" -> 3
-Snap(na) == [min |-> 1, max |-> 2, commit |-> na, pages |-> Img(na, 20), post |-> Img(na, 20), wsalt |-> 0, wend |-> 0]
+\* "behind2": the node holds two transaction files of its own history and the snapshot reaches TXID 3, so that
+\* a per-transaction file with a first TXID >= 2 sorts AFTER the snapshot file 1-3 by name
+ForkLen(rk) == CASE rk = "fresh" -> 0 [] rk = "behind" -> 1 [] rk = "behind2" -> 2 [] rk = "equal" -> 2 [] rk = "ahead" -> 3
+SnapMax(rk) == IF rk = "behind2" THEN 3 ELSE 2
+Snap(na, rk) == [min |-> 1, max |-> SnapMax(rk), commit |-> na, pages |-> Img(na, 20), post |-> Img(na, 20), wsalt |-> 0, wend |-> 0]
 DropLtx(t) == [min |-> t, max |-> t, commit |-> 0, pages |-> <<>>, post |-> <<>>, wsalt |-> 0, wend |-> 0]
 
 Setup(s) ==
@@ -165,8 +168,8 @@ Setup(s) ==
          LET tr == ForkLen(s.rk)
              B == IF tr = 0 THEN <<>> ELSE ChainImg(s.nb, 10, tr)
          IN [dbx |-> tr > 0, dbf |-> B, wal |-> NoWal, ltx |-> Chain(s.nb, 10, tr), shm |-> tr > 0,
-             pc |-> IF s.op = "restore" THEN "j_open" ELSE IF tr = 0 THEN "n_mkdir" ELSE "s_create", cur |-> Snap(s.na),
-             bef |-> [t |-> tr, img |-> B], aft |-> PosOf(Snap(s.na)), acked |-> FALSE]
+             pc |-> IF s.op = "restore" THEN "j_open" ELSE IF tr = 0 THEN "n_mkdir" ELSE "s_create", cur |-> Snap(s.na, s.rk),
+             bef |-> [t |-> tr, img |-> B], aft |-> PosOf(Snap(s.na, s.rk)), acked |-> FALSE]
     [] s.op = "rdrop" ->
          [dbx |-> TRUE, dbf |-> ChainImg(s.nb, 0, 2), wal |-> NoWal, ltx |-> Chain(s.nb, 0, 2), shm |-> TRUE, pc |-> "s_create", cur |-> DropLtx(3),
           bef |-> [t |-> 2, img |-> ChainImg(s.nb, 0, 2)], aft |-> [t |-> 3, img |-> <<>>], acked |-> FALSE]
